@@ -29,6 +29,7 @@ CONSTRUCTS = {
  'let_let_select': "let\n  a = 1;\nin\nlet\n  b = 2;\nin\na.b.c", 'let_let_binary': "let\n  a = 1;\nin\nlet\n  b = 2;\nin\na + b", 'let_let_paren': "let\n  a = 1;\nin\nlet\n  b = 2;\nin\n(a)",
  'let_let_assert': "let\n  a = 1;\nin\nlet\n  b = 2;\nin\nassert a;\nb", 'let_let_string': "let\n  a = 1;\nin\nlet\n  b = 2;\nin\n\"s\"",
  'inherit_from_multi': "{\n  inherit\n    (import ./lib.nix {\n      inherit pkgs;\n    })\n    foo\n    bar\n    ;\n  version = 1;\n}", 'inherit_from_multi_1line': "{\n  inherit (import ./lib.nix {\n    inherit pkgs;\n  }) foo bar;\n  version = 1;\n}",
+ 'has_attr_quoted': 's ? "a . b"', 'has_attr_quoted_mid': 's ? a."b. c".d', 'has_attr_interp': 's ? ${x}.c', 'select_quoted': 's."a . b".c', 'select_interp': 's.${x}.c or d',
  'empty_list': "[ ]", 'empty_set': "{ }", 'empty_rec_set': "rec { }", 'empty_list_call': "f [ ] { }",
  'attrpath_quoted': "{\n  \"a\".b.\"c d\".e = 1;\n}", 'attrpath_interp': "{\n  ${x}.b.\"${y}\".c = 1;\n}",
  'dup_attrpath_sets': "{\n  a.b = {\n    x = 1;\n  };\n  a.b = {\n    y = 2;\n  };\n}", 'dup_attrpath_sets_apart': "{\n  s.n = {\n    e = true;\n  };\n  z = 1;\n  s.n = {\n    u = 2;\n  };\n}",
@@ -53,7 +54,7 @@ CONTEXTS = {'lambda_body': lambda e: 'x:\n' + e, 'top': lambda e: e, 'lead_ws': 
             'bindval': lambda e: "{\n  v = " + e.replace("\n", "\n  ") + ";\n}", 'listitem': lambda e: "[\n  " + e.replace("\n", "\n  ") + "\n]",
             # seventh round: multi-byte characters before the construct (a reader that mixes byte offsets and character indices reads every later gap shifted)
             'utf8_lead': lambda e: "{\n  s = \"€😀é\";\n  v = " + e.replace("\n", "\n  ") + ";\n}"}
-NOT_LIST_ITEMS = ('let_import', 'let_let_import', 'let_attrpath_import', 'let_let_call', 'let_let_set', 'let_let_list', 'let_let_with', 'let_let_if', 'let_let_lambda', 'let_let_select', 'let_let_binary', 'let_let_paren', 'let_let_assert', 'let_let_string', 'empty_list_call', 'import', 'import_call', 'import_nl', 'import_paren', 'let_let', 'let_let_let', 'let_empty', 'let_empty_set', 'empty_formals', 'empty_formals_at', 'formals_ellipsis_only', 'with_list', 'with_set', 'with_istr', 'with_paren', 'with_call', 'with_multi_list', 'assert_list', 'assert_set', 'lambda_list', 'lambda_set', 'lambda_formals_set', 'let_set', 'let_list', 'if_set', 'call_list', 'call_istr', 'concat_list', 'update_set', 'formal_default_list', 'formal_default_multi', 'not_paren', 'inherit_in_let', 'if_multi', 'if_chain', 'with_multi', 'assert_multi', 'lambda_nl', 'call_multi', 'binary_multi', 'call', 'with', 'assert', 'if', 'lambda_id', 'lambda_formals', 'lambda_formals_multi', 'lambda_at', 'lambda_at_pre', 'let', 'binary', 'chain', 'update', 'has_attr', 'not', 'neg', 'select_or', 'call_set')
+NOT_LIST_ITEMS = ('has_attr_quoted', 'has_attr_quoted_mid', 'has_attr_interp', 'let_import', 'let_let_import', 'let_attrpath_import', 'let_let_call', 'let_let_set', 'let_let_list', 'let_let_with', 'let_let_if', 'let_let_lambda', 'let_let_select', 'let_let_binary', 'let_let_paren', 'let_let_assert', 'let_let_string', 'empty_list_call', 'import', 'import_call', 'import_nl', 'import_paren', 'let_let', 'let_let_let', 'let_empty', 'let_empty_set', 'empty_formals', 'empty_formals_at', 'formals_ellipsis_only', 'with_list', 'with_set', 'with_istr', 'with_paren', 'with_call', 'with_multi_list', 'assert_list', 'assert_set', 'lambda_list', 'lambda_set', 'lambda_formals_set', 'let_set', 'let_list', 'if_set', 'call_list', 'call_istr', 'concat_list', 'update_set', 'formal_default_list', 'formal_default_multi', 'not_paren', 'inherit_in_let', 'if_multi', 'if_chain', 'with_multi', 'assert_multi', 'lambda_nl', 'call_multi', 'binary_multi', 'call', 'with', 'assert', 'if', 'lambda_id', 'lambda_formals', 'lambda_formals_multi', 'lambda_at', 'lambda_at_pre', 'let', 'binary', 'chain', 'update', 'has_attr', 'not', 'neg', 'select_or', 'call_set')
 # ---- nesting family: every sequence of up to three wrappers around a leaf, each wrapper with names of its own depth ----
 WRAP = {
  'let': lambda i, e: 'let\n  v%d = %d;\nin\n%s' % (i, i, e), 'lam': lambda i, e: 'x%d: %s' % (i, e), 'formals': lambda i, e: '{ p%d }: %s' % (i, e),
@@ -86,6 +87,10 @@ def _lets(n, body, comments=False):
         t = 'let\n' + ('  # layer %d\n' % i if comments else '') + '  v%d = %d;\nin\n' % (i, i) + t
     return t
 CANON_DOCS = {
+ # eleventh round: blank lines and comments inside a multi-line lambda head (formals end in `...`: a trailing comma after the last formal is a MISSING node for this grammar)
+ 'formals_eol_comment_blank': '{\n  lib,\n  stdenv,\n  fetchurl, # needed for src\n\n  setuptools,\n  ...\n}:\n\nstdenv.mkDerivation {\n  pname = "demo";\n}',
+ 'formals_comments_blanks': '{\n  lib,\n  # own\n\n  stdenv, # eol\n\n  # build\n  ...\n}:\nlib', 'formals_blank_before_ellipsis': '{\n  a, # one\n\n  ...\n}:\na',
+ 'nested_lets_blank_before_body': 'let\n  a = 1;\nin\nlet\n  b = 2;\n  d = 3;\nin\n\n{ c = a + b; }',
  # ninth round: blocks of two and three own-line comments in every position that takes one (a gap measured to the wrong neighbour adds or drops a blank line)
  'cblock_after_lambda_head': '{ lib, buildGoModule }:\n# first\n# second\n# third\nbuildGoModule {\n  pname = "x";\n}', 'cblock_after_in': 'let\n  a = 1;\nin\n# one\n# two\n# three\na',
  'cblock_in_set': '{\n  # one\n  # two\n  # three\n  a = 1;\n  # four\n  # five\n  b = 2;\n  # six\n  # seven\n}', 'cblock_in_list': '[\n  # one\n  # two\n  1\n  # three\n  # four\n]',
@@ -148,7 +153,7 @@ def iter_cells():
 
 # ---- two comments at once (seventh round of seeds): every pair of gaps of a construct, three line-level kinds each; the comments are worded
 # differently (p / q) so that their order can be judged.  A pair cell is reported only when both of its single cells pass (slot_matrix.py).
-PAIR_KINDS = ['own_c', 'own_c_ind', 'eol_c']
+PAIR_KINDS = ['own_c', 'own_c_ind', 'eol_c', 'own_c_blank']       # own_c_blank (blank lines around the comment) added in the eleventh round
 def iter_pair_cells(contexts=('top',)):
     for cname, expr in CONSTRUCTS.items():
         for ctx in contexts:
